@@ -673,6 +673,13 @@ impl World {
 
     /// Runs every daemon that has to run at or before `t_end`; ends with the clock at `t_end`.
     pub fn run_until(&mut self, t_end: u64) {
+        self.run_until_cb(t_end, &mut |_, _, _| Vec::new());
+    }
+
+    /// Like `run_until`; after every step `cb(daemon, now, sent)` may return datagrams
+    /// `(deliver_at, if_index, src, bytes)` for that daemon (a scripted peer reacting to it).
+    #[allow(clippy::type_complexity)]
+    pub fn run_until_cb(&mut self, t_end: u64, cb: &mut dyn FnMut(usize, u64, &[Tx]) -> Vec<(u64, u32, SocketAddr, Vec<u8>)>) {
         loop {
             let mut next: Option<u64> = self.inflight.iter().map(|f| f.0).min();
             for d in &self.daemons {
@@ -714,6 +721,9 @@ impl World {
                 let sent = self.daemons[di].step();
                 self.total_steps += 1;
                 self.route(di, &sent);
+                for (at, ifx, src, bytes) in cb(di, now, &sent) {
+                    self.schedule(at, di, ifx, src, bytes);
+                }
             }
             if self.total_steps > self.step_budget {
                 self.budget_exhausted = true;
@@ -727,6 +737,17 @@ impl World {
         for d in self.daemons.iter_mut() {
             d.set_now(now);
         }
+    }
+
+    /// The next instant at which something happens (a delivery or a daemon's wake-up).
+    pub fn next_event_time(&self) -> Option<u64> {
+        let mut next: Option<u64> = self.inflight.iter().map(|f| f.0).min();
+        for d in &self.daemons {
+            if let Some(w) = d.wake_time() {
+                next = Some(next.map_or(w, |n| n.min(w)));
+            }
+        }
+        next
     }
 
     pub fn advance(&mut self, ms: u64) {
